@@ -802,6 +802,13 @@ def slot_inclusion(ctx, crate):
             ok = b.must_pass([0], {c.bb}, set(sub_true) | shrink_calls)
             ctx.check(ok, "inclusion-before-insert:" + fkey(b), "every path to the re-insert in %s passes the subset test's true edge or the shrink" % short(fid),
                       "%s can put the e-node back into its class on a path where neither `slots(class) ⊆ slots(node)` was tested true nor the class was shrunk: the class keeps a slot that none of its nodes mentions (extraction then returns a term outside the class, look-ups of it miss)" % short(fid), where_of(b, c.bb))
+            # one shrink does not establish the inclusion: when the e-node refers to its OWN class with shifted slots
+            # (union(t, f(t·π))), shrinking the class also shrinks the node, and the class can again have a slot the node lacks.
+            # The inclusion has to be *tested true* after the last shrink (`while !subset { shrink }`), not assumed.
+            ok2 = b.must_pass([0], {c.bb}, set(sub_true))
+            ctx.check(ok2, "inclusion-tested-after-shrink:" + fkey(b), "in %s the re-insert is reached only through the true edge of slots(class) ⊆ slots(node)" % short(fid),
+                      "%s re-inserts the e-node after ONE shrink without testing slots(class) ⊆ slots(node) again: for an e-node that refers to its own class with shifted slots (t($0,$1,$2) = neg(t($1,$2,$3))) the shrink also shrinks the node, the inclusion is false again, and the total composition a few lines later fails its assertion — a plain union panics in the build with internal checks (the default build stores, for a moment, an e-node that lacks a slot of its class)" % short(fid),
+                      where_of(b, c.bb))
 
 
 # ---------------------------------------------------------------------------- "for all elements: pred" recognisers
